@@ -407,6 +407,53 @@ def _rig_job(snapname):
             note(("sequence", f"watercare: SETWC sequence {fl['seq']} outside 1..191"), what)
         if rig.peer.wc_mode != want or wc.mode != want:
             note(("read-back", f"watercare {cur}->{req!r}: spa holds {rig.peer.wc_mode}, client reads {wc.mode}"), what)
+    # ---- commands issued while one of the library's OWN background requests is in flight ----------
+    # (facade update's GETWC / REQRM, the periodic refresh STATU, a ping): wait for the client's next transmission
+    # of that verb, then issue the command d seconds later, d on a grid across the request's round trip
+    if snapname == SNAPS[0]:
+        grid = [0.0, 0.005, 0.015, 0.03, 0.045, 0.06, 0.08, 0.1, 0.125, 0.15, 0.2]
+        p0 = fac.pumps[0] if fac.pumps else None
+        for verb in (b"GETWC", b"REQRM", b"STATU", b"APING"):
+            for d in grid:
+                for kind in ("watercare", "pump"):
+                    if kind == "pump" and p0 is None:
+                        continue
+                    m0 = len(rig.net.sent)
+
+                    def seen():
+                        for (tm, src, dst, data) in rig.net.sent[m0:]:
+                            if src == rig.client:
+                                pp = unframe(data)
+                                if pp and pp[2][:5] == verb:
+                                    return True
+                        return False
+
+                    if not rig.loop.run_for(400.0, seen):
+                        raise core.HarnessError(f"C13: the client never sent {verb!r} in 400 s")
+                    rig.loop.run_for(d)
+                    n += 1
+                    if kind == "watercare":
+                        want = (wc.mode + 1) % 5 if isinstance(wc.mode, int) else 1
+                        cmds, wire, err = rig._command(wc.async_set_mode(want), settle=3.0)
+                        if err:
+                            note(("engine", err), "watercare during " + verb.decode())
+                        elif rig.peer.wc_mode != want or wc.mode != want or len([c for c in cmds if c[1] == "setwc"]) != 1:
+                            note(("read-back", f"watercare set to {want} {d*1000:.0f} ms after the client's own {verb.decode()} went out: "
+                                               f"{len(cmds)} command(s), spa holds {rig.peer.wc_mode}, client reads {wc.mode}"),
+                                 "watercare during " + verb.decode())
+                    else:
+                        ud = p0._user_demand["demand"]
+                        modes = [m for m in p0.modes if m != ""]
+                        cur = p0.mode if p0.mode in modes else modes[0]
+                        req = modes[(modes.index(cur) + 1) % len(modes)]
+                        cmds, wire, err = rig._command(p0.async_set_mode(req), settle=3.0)
+                        if err:
+                            note(("engine", err), "pump during " + verb.decode())
+                        else:
+                            why = judge_set(rig, cmds, wire, ud, acc[ud].items.index(req), f"pump {p0.key} ->{req} {d*1000:.0f} ms after {verb.decode()}")
+                            if why is None and p0.mode != req and req in rig.spa.accessors[p0._state_sensor.accessor.tag].items:
+                                why = ("read-back", f"pump {p0.key} set to {req} {d*1000:.0f} ms after the client's own {verb.decode()}: reads {p0.mode!r}")
+                            note(why, "pump during " + verb.decode())
     ndev = len(fac.pumps) + len(switches)
     rig.exit()
     rig.close()
